@@ -200,6 +200,10 @@ impl Db {
         if rebuild {
             log::info!("rebuilding search index at {}", config.index_path.display());
 
+            if !in_memory {
+                config.invalidate_meta()?;
+            }
+
             // NB: a single indexing thread, so that the order of the documents
             // in the index (which decides between equally good matches) is the
             // order of the shipped data and not that of a thread schedule.
@@ -366,6 +370,8 @@ fn open_index(config: &crate::config::Config) -> Result<(bool, Index)> {
             return Ok((false, index));
         }
     }
+
+    config.invalidate_meta()?;
 
     if config.index_path.is_dir() {
         log::info!("removing index: {}", config.index_path.display());
